@@ -914,7 +914,7 @@ def plan(tier):
     Enum("utf8-text", lambda: enum_text(tier), shards=2),
     Enum("tcp-option-area-boundary", _sharded(lambda sh, n: enum_option_area(tier, sh, n)), shards=8),
     Enum("all-values-on-headers", lambda: enum_all_values(tier), shards=16),
-    Hyp("mutation", lambda: _strategy(tier), examples=400000, shards=16),
+    Hyp("mutation", lambda: _strategy(tier), examples=340000, shards=16),
   ] + _fuzz_drivers()
 
 
